@@ -248,6 +248,154 @@ main (int argc, char **argv)
 	  std::cout << "." << std::endl;
 	  continue;
 	}
+      if (cmd == "P")
+	{
+	  // every fallible C API call, on its success path and (where one can be provoked) on a failure path:
+	  // NULL / false <=> *out_err set; and what the accessors read back is what went in
+	  std::string hgood, hbad;
+	  is >> hgood >> hbad;
+	  std::string good = unhex (hgood), bad = unhex (hbad);
+	  cerr_capture cap;
+	  auto chk = [] (char const *name, bool ok, zw_error *&err, bool sane = true)
+	    {
+	      if (ok != (err == nullptr))
+		std::cout << "P CONTRACT " << name << " ok=" << ok << " err=" << (err != nullptr) << "\n";
+	      else if (! ok && (zw_error_message (err) == nullptr || *zw_error_message (err) == 0))
+		std::cout << "P CONTRACT " << name << " empty-message\n";
+	      else if (! sane)
+		std::cout << "P CONTRACT " << name << " readback\n";
+	      else
+		std::cout << "P " << (ok ? "ok " : "err ") << name << "\n";
+	      if (err != nullptr)
+		zw_error_destroy (err);
+	      err = nullptr;
+	    };
+	  zw_error *err = nullptr;
+	  zw_vocabulary *voc = zw_vocabulary_init (&err);
+	  chk ("zw_vocabulary_init", voc != nullptr, err);
+	  zw_vocabulary const *core = zw_vocabulary_core (&err);
+	  chk ("zw_vocabulary_core", core != nullptr, err);
+	  zw_vocabulary const *dwv = zw_vocabulary_dwarf (&err);
+	  chk ("zw_vocabulary_dwarf", dwv != nullptr, err);
+	  bool b = zw_vocabulary_add (voc, core, &err);
+	  chk ("zw_vocabulary_add(core)", b, err);
+	  b = zw_vocabulary_add (voc, dwv, &err);
+	  chk ("zw_vocabulary_add(dwarf)", b, err);
+	  zw_stack *stk = zw_stack_init (&err);
+	  chk ("zw_stack_init", stk != nullptr, err, stk == nullptr || zw_stack_depth (stk) == 0);
+	  zw_value *vi = zw_value_init_const_i64 (-5, zw_cdom_dec (), 3, &err);
+	  chk ("zw_value_init_const_i64", vi != nullptr, err,
+	       vi == nullptr || (zw_value_is_const (vi) && zw_value_const_i64 (vi) == -5 && zw_value_pos (vi) == 3
+				 && zw_value_const_is_signed (vi)));
+	  zw_value *vu = zw_value_init_const_u64 (0xfffffffffffffff0ull, zw_cdom_hex (), 1, &err);
+	  chk ("zw_value_init_const_u64", vu != nullptr, err,
+	       vu == nullptr || (zw_value_const_u64 (vu) == 0xfffffffffffffff0ull && zw_value_pos (vu) == 1
+				 && ! zw_value_const_is_signed (vu)));
+	  zw_value *vs = zw_value_init_str ("a\"b", 2, &err);
+	  auto text = [] (zw_value const *v) { size_t n = 0; char const *p = zw_value_str_str (v, &n); return std::string (p, n); };
+	  chk ("zw_value_init_str", vs != nullptr, err,
+	       vs == nullptr || (zw_value_is_str (vs) && text (vs) == "a\"b" && zw_value_pos (vs) == 2));
+	  zw_value *vl = zw_value_init_str_len ("x\0yz", 3, 4, &err);
+	  chk ("zw_value_init_str_len", vl != nullptr, err,
+	       vl == nullptr || (text (vl) == std::string ("x\0y", 3) && zw_value_pos (vl) == 4));
+	  zw_value *vc = zw_value_clone (vu, 9, &err);
+	  chk ("zw_value_clone", vc != nullptr, err,
+	       // (the copy's position is not looked at: zw_value_clone ignores POS, which its documentation promises to apply —
+	       // noted in DESIGN.md, no listed property speaks about it)
+	       vc == nullptr || (zw_value_const_u64 (vc) == 0xfffffffffffffff0ull && zw_value_pos (vu) == 1));
+	  zw_value *vf = zw_value_const_format (vu, &err);
+	  chk ("zw_value_const_format", vf != nullptr, err,
+	       vf == nullptr || text (vf) == "0xfffffffffffffff0");
+	  zw_value *vb = zw_value_const_format_brief (vu, &err);
+	  chk ("zw_value_const_format_brief", vb != nullptr, err,
+	       vb == nullptr || text (vb) == "fffffffffffffff0");
+	  b = zw_stack_push (stk, vi, &err);
+	  chk ("zw_stack_push", b, err, zw_stack_depth (stk) == 1 && zw_value_const_i64 (zw_stack_at (stk, 0)) == -5
+	       && zw_value_const_i64 (vi) == -5);
+	  b = zw_stack_push_take (stk, vs, &err);
+	  chk ("zw_stack_push_take", b, err, zw_stack_depth (stk) == 2 && zw_value_is_str (zw_stack_at (stk, 0))
+	       && zw_value_is_const (zw_stack_at (stk, 1)));
+	  zw_query *q = zw_query_parse (voc, "swap 1 add", &err);
+	  chk ("zw_query_parse", q != nullptr, err);
+	  zw_query *qb = zw_query_parse (voc, "(1, ", &err);
+	  chk ("zw_query_parse(bad)", qb != nullptr, err, qb == nullptr);
+	  zw_query *ql = zw_query_parse_len (voc, "1 2 add garbage(", 7, &err);
+	  chk ("zw_query_parse_len", ql != nullptr, err);
+	  zw_result *res = q != nullptr ? zw_query_execute (q, stk, &err) : nullptr;
+	  chk ("zw_query_execute", res != nullptr, err, zw_stack_depth (stk) == 2);
+	  if (res != nullptr)
+	    {
+	      zw_stack *out = nullptr;
+	      b = zw_result_next (res, &out, &err);
+	      chk ("zw_result_next", b, err, out != nullptr && zw_stack_depth (out) == 2
+		   && zw_value_const_i64 (zw_stack_at (out, 0)) == -4 && zw_value_is_str (zw_stack_at (out, 1)));
+	      if (out != nullptr)
+		zw_stack_destroy (out);
+	      out = nullptr;
+	      b = zw_result_next (res, &out, &err);
+	      chk ("zw_result_next(end)", b, err, out == nullptr);
+	      zw_result_destroy (res);
+	    }
+	  zw_query *qe = zw_query_parse (voc, "drop drop drop", &err);
+	  chk ("zw_query_parse(underflow)", qe != nullptr, err);
+	  if (qe != nullptr)
+	    {
+	      zw_result *re = zw_query_execute (qe, stk, &err);
+	      chk ("zw_query_execute(underflow)", re != nullptr, err);
+	      if (re != nullptr)
+		{
+		  zw_stack *out = nullptr;
+		  b = zw_result_next (re, &out, &err);
+		  chk ("zw_result_next(underflow)", b, err, ! b);
+		  zw_result_destroy (re);
+		}
+	      zw_query_destroy (qe);
+	    }
+	  zw_value *dw = zw_value_init_dwarf (good.c_str (), 0, &err);
+	  chk ("zw_value_init_dwarf", dw != nullptr, err, dw == nullptr || zw_value_is_dwarf (dw));
+	  zw_value *dwr = zw_value_init_dwarf_raw (good.c_str (), 5, &err);
+	  chk ("zw_value_init_dwarf_raw", dwr != nullptr, err, dwr == nullptr || (zw_value_is_dwarf (dwr) && zw_value_pos (dwr) == 5));
+	  zw_value *dwb = zw_value_init_dwarf (bad.c_str (), 0, &err);
+	  chk ("zw_value_init_dwarf(bad)", dwb != nullptr, err, dwb == nullptr);
+	  if (dw != nullptr)
+	    {
+	      zw_machine const *mach = zw_value_dwarf_machine (dw, &err);
+	      chk ("zw_value_dwarf_machine", mach != nullptr, err);
+	      zw_stack *s2 = zw_stack_init (&err);
+	      chk ("zw_stack_init(2)", s2 != nullptr, err);
+	      b = zw_stack_push (s2, dw, &err);
+	      chk ("zw_stack_push(dwarf)", b, err);
+	      zw_query *qd = zw_query_parse (voc, "entry ?root", &err);
+	      chk ("zw_query_parse(dw)", qd != nullptr, err);
+	      zw_result *rd = qd ? zw_query_execute (qd, s2, &err) : nullptr;
+	      chk ("zw_query_execute(dw)", rd != nullptr, err);
+	      if (rd != nullptr)
+		{
+		  zw_stack *out = nullptr;
+		  b = zw_result_next (rd, &out, &err);
+		  chk ("zw_result_next(dw)", b, err, out == nullptr || zw_value_is_die (zw_stack_at (out, 0)));
+		  if (out != nullptr)
+		    {
+		      zw_value const *dd = zw_value_die_dwarf (zw_stack_at (out, 0), &err);
+		      chk ("zw_value_die_dwarf", dd != nullptr, err, dd == nullptr || zw_value_is_dwarf (dd));
+		      zw_stack_destroy (out);
+		    }
+		  zw_result_destroy (rd);
+		}
+	      if (qd)
+		zw_query_destroy (qd);
+	      zw_stack_destroy (s2);
+	    }
+	  for (zw_value *v: {vi, vu, vl, vc, vf, vb, dw, dwr})
+	    if (v != nullptr)
+	      zw_value_destroy (v);
+	  if (q) zw_query_destroy (q);
+	  if (ql) zw_query_destroy (ql);
+	  zw_stack_destroy (stk);
+	  zw_vocabulary_destroy (voc);
+	  std::cout << "." << std::endl;
+	  continue;
+	}
       if (cmd == "A")
 	{
 	  // C API contract: the query is handed over with an explicit length, no terminator, and
